@@ -157,6 +157,7 @@ def showLookup : Lookup → String
   snts rfs t…                        → per token the replicas (or crash:<class>); model answers with Spec.nts — for every
                                        ring: vnodes, token-less hosts, datacenters unknown to the ring / to the keyspace
   strategy <class-hex> k=v…          → getStrategy
+  sstrategy <class-hex> k=v…         → getStrategy for a strategy class Cassandra ships; model answers with Spec.strategy (C10_strategy)
   resetpol <sessKs> id/addr/dc/rack/t,… …  → new tokenAwareHostPolicy, universe of host objects (index = position), every schema unreadable
   pev add i | addmany i,j | rem i | up i | down i | part m|r|o|k|e | kc ks   → the policy event, answer = dump of the metadata
   pfresh                             → the ghost field `fresh` (keyspaces whose schema is unchanged since the policy last read it)
@@ -267,6 +268,13 @@ def step (s : Cl) (ws : List String) : Cl × String :=
   | "strategy" :: cls :: opts =>
     match Util.parseHex cls, opts.mapM parseOpt with
     | some c, some os => (s, showStrategy (getStrategy (c.map (fun b => Char.ofNat b.toNat)) os))
+    | _, _ => (s, "bad-op")
+  | "sstrategy" :: cls :: opts =>
+    -- spec-backed (C10_strategy): only emitted for the strategy classes Cassandra ships; answered with Spec.strategy
+    match Util.parseHex cls, opts.mapM parseOpt with
+    | some c, some os => (s, match Placement.Spec.strategy (c.map (fun b => Char.ofNat b.toNat)) os with
+        | some st => showStrategy st
+        | none => "unspecified-class")
     | _, _ => (s, "bad-op")
   | _ => (s, "bad-op")
 
